@@ -463,3 +463,90 @@ def gen_srec(rng):
     lines.append(srecline(te, entry, b""))
     eol = rng.choice([b"\n", b"\r\n"])
     return eol.join(lines) + eol, recs, entry, lines
+
+
+def srec_file_valid(text):
+    """Independent S-record file validator (Motorola S-record layout: 'S', one type digit, then hex byte pairs: a count
+    byte that equals the number of bytes after it, a 2/3/4-byte address fixed by the type, data, and the ones' complement
+    of the low byte of the sum of all bytes from the count on).  Blank lines are skipped; a file needs one record."""
+    n = 0
+    for line in text.split(b"\n"):
+        l = line.strip()
+        if not l:
+            continue
+        if len(l) < 4 or l[0:1] != b"S" or l[1:2] not in b"012356789":
+            return False
+        h = l[2:]
+        if len(h) % 2 or any(c not in b"0123456789ABCDEFabcdef" for c in h):
+            return False
+        raw = bytes.fromhex(h.decode())
+        if raw[0] != len(raw) - 1 or raw[0] < SREC_ASZ[int(l[1:2])] + 1:
+            return False
+        if (~sum(raw[:-1])) & 255 != raw[-1]:
+            return False
+        n += 1
+    return n > 0
+
+
+def tiny_macho(rng, is64, minimal=False):
+    """a thin image of a few hundred bytes: header, one __TEXT segment (0-1 sections) covering the file, optional
+    LC_UUID / LC_MAIN / LC_SOURCE_VERSION (minimal: the segment command alone)"""
+    hsz = 32 if is64 else 28
+    segf, segn = SEG64 if is64 else SEG32
+    secf, secn = SECT64 if is64 else SECT32
+    nsect = 0 if minimal else rng.randrange(0, 2)
+    lcs = [("seg", struct.calcsize(segf) + nsect * struct.calcsize(secf))]
+    if not minimal and rng.random() < 0.5:
+        lcs.append(("uuid", 24))
+    if not minimal and rng.random() < 0.5:
+        lcs.append(("main", 24))
+    if not minimal and rng.random() < 0.3:
+        lcs.append(("srcver", 16))
+    sizeofcmds = sum(z for _, z in lcs)
+    total = hsz + sizeofcmds + rng.randrange(8, 64)
+    img = bytearray(rng.randbytes(total))
+    va = rng.randrange(1, 256) * 0x1000
+    o = hsz
+    for k, z in lcs:
+        if k == "seg":
+            d = dict(cmd=LC_SEGMENT_64 if is64 else LC_SEGMENT, cmdsize=z, segname=b"__TEXT", vmaddr=va, vmsize=0x1000, fileoffset=0,
+                     filesize=total, maxprot=7, initprot=5, nsects=nsect, flags=0)
+            struct.pack_into(segf, img, o, *[d[n] for n in segn])
+            for j in range(nsect):
+                cd = dict(sectname=b"__text", segname=b"__TEXT", addr=va + hsz + sizeofcmds, size_=total - hsz - sizeofcmds,
+                          offset=hsz + sizeofcmds, align=0, reloff=0, nreloc=0, flags=0x80000400, reserved1=0, reserved2=0, reserved3=0)
+                struct.pack_into(secf, img, o + struct.calcsize(segf), *[cd[n] for n in secn])
+        elif k == "uuid":
+            struct.pack_into("<II16s", img, o, LC_UUID, z, rng.randbytes(16))
+        elif k == "main":
+            struct.pack_into("<IIQQ", img, o, LC_MAIN, z, hsz + sizeofcmds, 0)
+        else:
+            struct.pack_into("<IIQ", img, o, LC_SOURCE_VERSION, z, rng.getrandbits(40))
+        o += z
+    vals = [MH_MAGIC_64 if is64 else MH_MAGIC, 0x01000007 if is64 else 7, 3, 2, len(lcs), sizeofcmds, 1] + ([0] if is64 else [])
+    struct.pack_into("<IiiIIII" + ("I" if is64 else ""), img, 0, *vals)
+    return bytes(img)
+
+
+FAT_MAGIC = 0xCAFEBABE
+
+
+def fat_image(slices, align=12):
+    """universal binary (<mach-o/fat.h>: big-endian fat_header {magic, nfat_arch}, then nfat_arch fat_arch entries
+    {cputype, cpusubtype, offset, size, align}) holding the given thin images, each at a multiple of 2**align.
+    Returns (bytes, [(file position of the entry's offset field, file position of its size field)])."""
+    n = len(slices)
+    pos = 8 + 20 * n
+    ents = []
+    for s in slices:
+        pos = (pos + (1 << align) - 1) >> align << align
+        ents.append((pos, len(s)))
+        pos += len(s)
+    out = bytearray(struct.pack(">II", FAT_MAGIC, n))
+    for (o, z), s in zip(ents, slices):
+        cpu, sub = struct.unpack_from("<II", s, 4) if len(s) >= 12 else (7, 3)
+        out += struct.pack(">IIIII", cpu, sub, o, z, align)
+    for (o, z), s in zip(ents, slices):
+        out += b"\0" * (o - len(out))
+        out += s
+    return bytes(out), [(8 + 20 * i + 8, 8 + 20 * i + 12) for i in range(n)]
